@@ -116,6 +116,14 @@ end end`},
   emit("errpre", ok)
   return f()
 end end`},
+	// the outer context has already used part of its budget when the inner
+	// callable (typically a nested context) starts
+	{"prealloc", `local function n_prealloc(f) return function()
+  local held = ("p"):rep(2000)
+  local r = f()
+  emit("prealloc", #held)
+  return r
+end end`},
 	// thorough only (index >= nQuickNests)
 	{"ctxcpu", `local function n_ctxcpu(f) return function()
   local ctx, r = runtime.callcontext({kill={cpu=10000000}}, f)
@@ -138,7 +146,7 @@ end end`},
 end end`},
 }
 
-const nQuickNests = 12
+const nQuickNests = 13
 
 // A workload is the body of function work(); %K is replaced by the size.
 type workload struct {
